@@ -16,6 +16,7 @@ OUT_DIR = os.path.join(subject.VERIF, "out")
 EVIDENCE_DIR = os.path.join(subject.VERIF, "evidence")
 KNOWN_FILE = os.path.join(subject.VERIF, "known_findings.json")
 SHRINK_BUDGET = 300
+SHRINK_WALL_S = 240
 
 
 def canon(obj):
@@ -145,13 +146,14 @@ def shrink(mod, world, signature, log, workers=16):
     tried = 0
     cur = world
     name = mod.__name__.split(".")[-1]
+    t_end = time.time() + SHRINK_WALL_S     # violations that consist of a hang cost 30 s per candidate: bound the wall time as well
     with multiprocessing.Pool(workers) as pool:
         improved = True
-        while improved and budget > 0:
+        while improved and budget > 0 and time.time() < t_end:
             improved = False
             gen = mod.shrink_candidates(cur)
             seen = set()
-            while budget > 0:
+            while budget > 0 and time.time() < t_end:
                 batch = []
                 for cand in gen:
                     c = canon(cand)
